@@ -68,7 +68,7 @@ func main() {
 	seed := fs.Int64("seed", 1, "")
 	n := fs.Int("n", 10, "")
 	length := fs.Int("len", 0, "")
-	kinds := fs.String("kinds", "0,1,2,3,4,5,6,7", "")
+	kinds := fs.String("kinds", "0,1,2,3,4,5,6,7,8", "")
 	outp := fs.String("out", "", "")
 	inp := fs.String("in", "", "")
 	histp := fs.String("hist", "", "")
